@@ -94,6 +94,11 @@ pub struct Plan {
     pub crash_at: Option<usize>,
     /// If the crashing op is a write to an absent path, leave a zero-length file.
     pub crash_empty: bool,
+    /// If the crashing op is a remove_dir_all: the recursive removal is not atomic, so the kill
+    /// may come after some of the files below the directory are gone. With Some(seed) a
+    /// seed-chosen non-empty subset of those files is removed (each removal logged as an op
+    /// with inj = "torn") before the world stops.
+    pub crash_torn: Option<u64>,
     /// Make the op with this index fail with this error kind.
     pub fail: HashMap<usize, String>,
     /// Additionally make each op fail with this probability ...
@@ -245,6 +250,47 @@ impl ActorIcpt {
     }
 }
 
+impl ActorIcpt {
+    /// The part of a recursive directory removal that happened before a kill: remove a seed-chosen
+    /// non-empty subset of the regular files below `path` (directories stay), logging each removal.
+    fn tear_dir(&self, path: &str, seed: u64, k: usize) {
+        fn files_below(dir: &Path, rel: &str, out: &mut Vec<String>) {
+            let mut names: Vec<(String, bool)> = match fs::read_dir(dir) {
+                Ok(rd) => rd.filter_map(|e| e.ok()).map(|e| (e.file_name().to_string_lossy().to_string(), e.path().is_dir())).collect(),
+                Err(_) => return,
+            };
+            names.sort();
+            for (n, is_dir) in names {
+                let r = format!("{rel}/{n}");
+                if is_dir {
+                    files_below(&dir.join(&n), &r, out);
+                } else {
+                    out.push(r);
+                }
+            }
+        }
+        let mut files = Vec::new();
+        files_below(&self.root.join(path), path.trim_end_matches('/'), &mut files);
+        if files.is_empty() {
+            return;
+        }
+        let mut x = seed.wrapping_mul(0x9E3779B97F4A7C15) | 1;
+        let mut gone: Vec<String> = files.iter().filter(|_| next_rand(&mut x) < 0.5).cloned().collect();
+        if gone.is_empty() {
+            gone.push(files[(next_rand(&mut x) * files.len() as f64) as usize % files.len()].clone());
+        }
+        for f in gone {
+            if fs::remove_file(self.root.join(&f)).is_ok() {
+                self.log.emit_op(json!({
+                    "ev": "op", "seq": 0, "actor": self.name, "k": k as i64, "verb": "remove_file",
+                    "key": decode::key_of(&f), "mode": "", "inj": "torn", "res": "ok", "pre": "",
+                    "dec": decode::payload("none"), "names": Vec::<String>::new(), "len": -1,
+                }));
+            }
+        }
+    }
+}
+
 fn next_rand(x: &mut u64) -> f64 {
     // xorshift64*
     *x ^= *x >> 12;
@@ -282,6 +328,9 @@ impl Interceptor for ActorIcpt {
                 if full.parent().map(|p| p.is_dir()).unwrap_or(false) && fs::write(&full, b"").is_ok() {
                     inj = "crash_empty".into();
                 }
+            }
+            if let (Some(seed), Verb::RemoveDirAll) = (g.plan.crash_torn, op.verb) {
+                self.tear_dir(op.path, seed, k);
             }
             decision = Decision::Fail(ErrorKind::Other);
         } else if let Some(kind) = g.plan.fail.get(&k).cloned() {
